@@ -69,6 +69,7 @@ type vUpSpec struct {
 	static            bool
 	noPassHost        bool
 	files             []string // a file:// upstream serving these names (content "FILE:<id>:<name>")
+	uriPath           string   // path part of the upstream's URI (not part of where requests are sent)
 }
 
 func driveC17(t *testing.T, out *vEmitter) {
@@ -87,6 +88,10 @@ func driveC17(t *testing.T, out *vEmitter) {
 		// rewrite rules that overlap, the longer pattern sorting BELOW the shorter one as a string ('(' < 'a', 'A' < 'a')
 		{{id: "root", path: "/"}, {id: "app", path: "^/app/(.*)$", rewrite: "/$1"}, {id: "assets", path: "^/(app|admin)/assets/(.*)$", rewrite: "/static/$1/$2"},
 			{id: "zz", path: "^/z", rewrite: "/short-z"}, {id: "zlong", path: "^/Zebra|^/zebra/stripes/(.*)$", rewrite: "/long-z"}},
+		// upstream URIs that carry a path of their own: the path part of the URI is not part of where requests go (http.go:
+		// "request paths start at the server root"), for ordinary and for websocket-upgrade requests alike
+		{{id: "root", path: "/", uriPath: "/ignored/base"}, {id: "ws", path: "/ws/", uriPath: "/backend/"}, {id: "sock", path: "^/sock/(.*)$", rewrite: "/s/$1", uriPath: "/deep/er"},
+			{id: "exact", path: "/exact", uriPath: "/x%2Fy/"}},
 	}
 	paths := []string{"/", "/x", "/api", "/api/", "/api/users", "/api/v2", "/api/v2/", "/api/v2/items?q=1", "/api/v2/special/1", "/apix", "/exact", "/exact/", "/exact/x",
 		"/api/x%2Fy", "/api/v2/a%20b", "/api/%2e%2e/x", "/api/a+b", "/api/c;d=1", "/api/%C3%A9", "/api/é", "/legacy/one/two", "/legacy/", "/legacy/my%20file.txt", "/legacy/caf%C3%A9/x", "/legacy/a%2Fb", "/q/a%20b?orig=1", "/lx%20y", "/l", "/lx/y", "/q/z?orig=1&x=0",
@@ -99,15 +104,18 @@ func driveC17(t *testing.T, out *vEmitter) {
 // re-spellings of the proxy's own probe paths: only the literal /ping and /ready are the proxy's, these belong to the upstream
 		"/app/assets/logo.png?v=1", "/admin/assets/x.css", "/app/other", "/zebra/stripes/7", "/zoo", "/Zebra",
 		"/pin%67", "/%70ing?a=1", "/read%79", "/%72eady", "/p%69ng/x",
-		"/static-resp/x", "/a/", "/a/x", "/ab/x", "/a/b/x", "/a/b/c", "/a/b/c/", "/a/b/cd", "/nohost/x", "/a", "/ab", "/new/direct"}
+		"/ws/chat", "/ws/", "/ws/a%2Fb?room=1", "/sock/a%20b?x=1", "/sock/", "/static-resp/x", "/a/", "/a/x", "/ab/x", "/a/b/x", "/a/b/c", "/a/b/c/", "/a/b/cd", "/nohost/x", "/a", "/ab", "/new/direct"}
 	queries := []string{"", "?q=1&r=a+b%20c", "?", "?x=%2F&y=%3D;z"}
 	for si, set := range sets {
-		for _, variant := range []int{0, 1, 2} {
+		for _, variant := range []int{0, 1, 2, 3} {
 			// variant 2: every request also asks for a non-websocket protocol upgrade (Connection: Upgrade,
 			// Upgrade: h2c) -- still an ordinary proxied request
 			rawPath := variant == 1
-			upgrade := variant == 2
-			if upgrade && si != 1 && si != 2 && !vThorough() {
+			// variant 3: a websocket upgrade request (Connection: upgrade, Upgrade: websocket), served by the upstream's
+			// websocket proxy: the same routing, the same request target
+			upgrade := variant >= 2
+			upgradeTo := map[int]string{2: "h2c", 3: "websocket"}[variant]
+			if upgrade && si != 1 && si != 2 && si != 6 && !vThorough() {
 				continue
 			}
 			backends := map[string]*vBackend{}
@@ -128,7 +136,7 @@ func driveC17(t *testing.T, out *vEmitter) {
 				} else {
 					b := vNewBackend(u.id)
 					backends[u.id] = b
-					o.URI = b.srv.URL
+					o.URI = b.srv.URL + u.uriPath
 					if u.noPassHost {
 						f := false
 						o.PassHostHeader = &f
@@ -179,7 +187,7 @@ func driveC17(t *testing.T, out *vEmitter) {
 						hs = append(hs, [2]string{"Content-Type", "application/octet-stream"})
 					}
 					if upgrade {
-						hs = append(hs, [2]string{"Connection", "Upgrade"}, [2]string{"Upgrade", "h2c"})
+						hs = append(hs, [2]string{"Connection", "Upgrade"}, [2]string{"Upgrade", upgradeTo})
 					}
 					res := b.do(method, target, hs, body)
 					var hit *vBackendHit
@@ -408,7 +416,7 @@ func driveC17(t *testing.T, out *vEmitter) {
 					}
 					if spec.rewrite == "" && hit.requestURI != target {
 						out.Violation("upstream/request-target-changed", "the upstream received a request-target that differs from the one sent (path, percent-encoding or query changed)",
-							map[string]interface{}{"sent": target, "got": hit.requestURI, "upstream": hit.id, "raw_path": rawPath})
+							map[string]interface{}{"sent": target, "got": hit.requestURI, "upstream": hit.id, "raw_path": rawPath, "upgrade": upgradeTo, "upstream_uri_path": spec.uriPath})
 					}
 					if spec.rewrite != "" {
 						re := regexp.MustCompile(spec.path)
@@ -424,7 +432,7 @@ func driveC17(t *testing.T, out *vEmitter) {
 						}
 						if gotPath != u2.EscapedPath() {
 							out.Violation("upstream/rewrite-wrong", "the path was not rewritten as the rule specifies",
-								map[string]interface{}{"sent": target, "got": hit.requestURI, "want_path": u2.EscapedPath(), "rule": spec.path + " -> " + spec.rewrite})
+								map[string]interface{}{"sent": target, "got": hit.requestURI, "want_path": u2.EscapedPath(), "rule": spec.path + " -> " + spec.rewrite, "upgrade": upgradeTo, "upstream_uri_path": spec.uriPath})
 						}
 					}
 					if spec.rewrite != "" {
